@@ -1018,6 +1018,7 @@ func TestVerifC20Singles(t *testing.T) {
 	}
 
 	st.Extra("goroutines_at_end", runtime.NumGoroutine())
+	st.Extra("queries_that_reached_the_loopback_upstream", ck.fx.upsCount.Load())
 	col.report()
 }
 
@@ -1056,6 +1057,7 @@ func TestVerifC20Switches(t *testing.T) {
 	}
 
 	st.Extra("goroutines_at_end", runtime.NumGoroutine())
+	st.Extra("queries_that_reached_the_loopback_upstream", ck.fx.upsCount.Load())
 	col.report()
 }
 
@@ -1088,6 +1090,7 @@ func TestVerifC20Thresholds(t *testing.T) {
 	}
 
 	st.Extra("goroutines_at_end", runtime.NumGoroutine())
+	st.Extra("queries_that_reached_the_loopback_upstream", ck.fx.upsCount.Load())
 	col.report()
 }
 
@@ -1108,4 +1111,6 @@ func TestVerifC20Mutate(t *testing.T) {
 		muts, pair := ck.vc20DrawMutations(t, weighted)
 		ck.vc20Eval(t, muts, pair)
 	})
+
+	st.Extra("queries_that_reached_the_loopback_upstream", ck.fx.upsCount.Load())
 }
